@@ -197,6 +197,12 @@ def _sart(run, mod, fn0, constrained):
         # --- R1: value is 0, CLIP0(..), or a clip test on the stored value is recorded as false on this path
         clipped = (val.is_const() and val.const_value() == 0) or any(l.startswith('CLIP0(') for l in val.leaves()) and len(val.leaves()) == 1
         if not clipped:
+            # a conditional expression / test on the value itself: the decision is recorded with the value's own spelling
+            vk = val.key()
+            for k2, b2 in p.value_tests:
+                if k2 == vk and b2:
+                    clipped = True
+        if not clipped:
             tests = [(k2, b2) for k2, b2 in dec.items() if re.match(r'^(\w+) (<|<=) 0(\.0)?$', k2) and not b2] + \
                     [(k2, b2) for k2, b2 in dec.items() if re.match(r'^(\w+) (>|>=) 0(\.0)?$', k2) and b2]
             clipped = bool(tests) and _tests_stored_value(synth, node, tests)
